@@ -353,6 +353,29 @@ ADDENDA6 = {
     "C18": "; conversions of values read from the configuration file are guarded and reported as configuration errors (followed into helpers); every read goes through _read_config",
     "C19": "; table generators widen both scales before the product",
 }
+ADDENDA7 = {
+    "C02": "; register / operand agreement of the emitter helpers; origin of the zero constant's shape in convert_resize_1x1_to_add",
+    "C03": "; reachability over the pass-packing automaton (test_sequence); single activation slot (overwrite guarded at either site); byte extents of LUT residency; LUT reload per stripe; constant operand copy conditions",
+    "C04": "; backward slice of the emitted BLOCKDEP to calc_blockdep",
+    "C05": "; typestate of per-trial fields across an early-exit trial loop (HillClimb)",
+    "C06": "; must-pass-through of zero-point emissions on the emitter CFGs; shared SHRAM partition and register / operand rules",
+    "C07": "; clang-AST types of stride arithmetic in get_brick_weight; c_eval of the lane guard of reorder on probe lanes",
+    "C08": "; rewrite order of fixup_bias_tensors vs the weight-axis rewrites; completeness of Operation.clone over the class slots",
+    "C09": "; positional field order of ExplicitScaling by operand names; folded clamp constant of the softmax input multiplier; all-sides test of the global pooling divisor",
+    "C10": "; interpretation of transform_with_strides_and_skirt on stripes of explicitly padded operators and of needed_total_padding on a grid; axis-named locals",
+    "C11": "; in-place mutation of tensor-owned shape lists / value arrays through bare aliases (branch-aware); unconditional Add of serialised option members",
+    "C12": "; one time slot per cascade; shared buffer-size rules",
+    "C13": "; shared HillClimb, clone, stale-loop-variable rules; parameter-named positional arguments; operand coverage of the CPU pass move test",
+    "C14": "; ambient inputs: clock values only printed, file-system state only guards errors",
+    "C15": "; conjunct set of the Conv1D accumulator halving; derived shapes in the scheduler",
+    "C16": "; truth tables of trial guards (semantic valid x supported); placement test of MemoryOnly passes; stale loop variables",
+    "C17": "; evaluation of the length guard on probe lengths; Prep(16) alignment of written buffers",
+    "C18": "; shape of membership comparators (IntFlag containment); name-derived inheritance in the bundled configuration",
+    "C19": "; truth tests of addresses; element type of the reader's zero points",
+}
+for _pid, _t7 in ADDENDA7.items():
+    _tech, _text, _note, _ref = CLAIMS[_pid]
+    CLAIMS[_pid] = (_tech + _t7, _text, _note, _ref)
 for _pid, _t6 in ADDENDA6.items():
     _tech, _text, _note, _ref = CLAIMS[_pid]
     CLAIMS[_pid] = (_tech + _t6, _text, _note, _ref)
